@@ -49,6 +49,10 @@ pub fn run(ctx: &Ctx, rep: &mut Report, replay: Option<&serde_json::Value>) {
     ctx.shrink_iters.store(150, std::sync::atomic::Ordering::Relaxed);
     if let Some(v) = replay {
         let t: Tagged<Scenario> = serde_json::from_value(v.clone()).expect("replay");
+        if t.sub == "rrdp" {
+            run_case(ctx, rep, &t.sub, &t.case, |sc, i| rrdp_single_prop("C01/rrdp", sc, i, true, false));
+            return;
+        }
         run_case(ctx, rep, &t.sub, &t.case, |sc, i| judge_scenario("C01", sc, i, true, false));
         return;
     }
@@ -71,6 +75,30 @@ pub fn run(ctx: &Ctx, rep: &mut Report, replay: Option<&serde_json::Value>) {
         let p = p.clone();
         move |w| single_run(&w, &p)
     }), |sc, i| judge_scenario("C01", sc, i, true, false));
+    run_rrdp_single(ctx, rep, "C01/rrdp", true, false);
+}
+
+/// Sub-check "rrdp" of C01 / C02: the single-run scenarios with about half of the CAs published through
+/// RRDP repositories (some of which fail), so that the RRDP collector, the RRDP-keyed store and the
+/// RRDP-to-rsync fallback are on the path from repository to payload.
+pub fn run_rrdp_single(ctx: &Ctx, rep: &mut Report, id: &'static str, sound: bool, complete: bool) {
+    rep.rule("(rrdp) the single-run scenarios with every CA published through one of 2 RRDP repositories (in-harness HTTPS server behind routinator's real HTTP client) with chance 1/2, each repository's notification failing (HTTP 500) with chance 3/16, each rsync module unreachable with chance 2/16, rrdp-fallback in {stale, never, new}; model: repository updated => the CA's point is collected from the RRDP copy, update failed without local copy => rsync unless policy never, else stored data only; non-trivial = a CA published through RRDP was attempted and the scenario has a fault or a failing repository, and payload is expected");
+    let p = Profile { rrdp_16: 8, ..Profile::default() };
+    run_prop_par(ctx, rep, "rrdp", ctx.tier.pick(120, 3000), 8, || (genome(160), rrdp_genome()).prop_map({
+        let p = p.clone();
+        move |(w, r)| single_run_rrdp(&w, &r, &p, 3)
+    }), |sc, i| rrdp_single_prop(id, sc, i, sound, complete));
+}
+
+pub fn rrdp_single_prop(id: &'static str, sc: &Scenario, info: &mut CaseInfo, sound: bool, complete: bool) -> Verdict {
+    let j = crate::erun::Judge { id, sound, complete, ..Default::default() };
+    let mut payload = false;
+    let (v, seen) = crate::erun::judge_rrdp(&j, sc, info, |_, obs| {
+        payload |= !obs.exp.payload.is_empty();
+        None
+    });
+    info.nontrivial = seen.attempted && payload && (count_faults(sc) > 0 || sc.steps.iter().any(|s| !s.fail_rrdp.is_empty()));
+    v
 }
 
 use proptest::strategy::Strategy;
